@@ -1,5 +1,6 @@
 // C11 harness: Find_Minimum / Find_Maximum and Minimization::minimize with recorded evaluation traces (case grammar: checks/C11.py);
-// seq = several calls in one process on shared objects (arguments may be the objects' own public members), nest = the objective of a minimisation runs a minimisation itself
+// seq = several calls in one process on shared objects (arguments may be the objects' own public members; the caller may write the public members between calls: putY/putS/putN;
+// a call may be abandoned by an objective that throws at its n-th evaluation: ab), nest = the objective of a minimisation runs a minimisation itself
 #include "common.hpp"
 #include "libphysica/Numerics.hpp"
 using namespace libphysica;
@@ -211,6 +212,9 @@ struct SeqReq
 		return plain.run(m, g);
 	}
 };
+struct Abandon
+{
+};
 // seq: several calls in one process, on one or several Minimization objects (and 1-D calls in between); every Nelder-Mead call is
 // repeated on a fresh object (on the values its arguments had when the call started) and compared bit for bit (token `same`)
 static void handle_seq(vh::Reader& r, vh::Out& o)
@@ -228,9 +232,9 @@ static void handle_seq(vh::Reader& r, vh::Out& o)
 	{
 		long ob			 = r.integer();
 		std::string kind = r.word();
-		o.w("C");
 		if(kind == "fmin" || kind == "fmax")
 		{
+			o.w("C");
 			double xl = r.num(), xr = r.num(), tol = r.num();
 			auto f = vh::fun1(vh::parse_fexpr(r));
 			std::vector<double> trace;
@@ -248,12 +252,40 @@ static void handle_seq(vh::Reader& r, vh::Out& o)
 			o.i(same_d(res, res2) && same_v(first, trace) ? 1 : 0);
 			continue;
 		}
+		// the caller writes the public members of object ob (they are plain public data): putY <list> | putS <table> | putN <nfunc> <mpts> <ndim> <fmin>
+		if(kind == "putY" || kind == "putS" || kind == "putN")
+		{
+			Minimization& m = *objs.at(ob);
+			if(kind == "putY")
+				m.y = r.list();
+			else if(kind == "putS")
+				m.current_simplex = r.table();
+			else
+			{
+				m.nfunc = (int) r.integer();
+				m.mpts	= (int) r.integer();
+				m.ndim	= (int) r.integer();
+				m.fmin	= r.num();
+			}
+			o.w("P");
+			continue;
+		}
+		// ab <n> <request>: the objective throws at its n-th evaluation; the exception passes through minimize, the caller (here) catches it
+		// and goes on using the object.  Answer: A <the points asked for>; a call that returns before its n-th evaluation answers as usual.
+		long nab = 0;
+		if(kind == "ab")
+		{
+			nab	 = r.integer();
+			kind = r.word();
+		}
 		SeqReq call;
 		call.read(kind, r);
 		auto e = vh::parse_fexpr(r);
 		std::vector<std::vector<double>> trace, trace2;
 		std::function<double(std::vector<double>)> g = [&](std::vector<double> x) {
 			trace.push_back(x);
+			if(nab > 0 && (long) trace.size() >= nab)
+				throw Abandon();
 			return vh::eval_fexpr(*e, x.data());
 		};
 		std::function<double(std::vector<double>)> g2 = [&](std::vector<double> x) {
@@ -262,7 +294,18 @@ static void handle_seq(vh::Reader& r, vh::Out& o)
 		};
 		Minimization& m = *objs.at(ob);
 		call.capture(objs);
-		std::vector<double> pmin = call.run(m, objs, g);
+		std::vector<double> pmin;
+		try
+		{
+			pmin = call.run(m, objs, g);
+		}
+		catch(const Abandon&)
+		{
+			o.w("A");
+			put_table(o, trace);
+			continue;
+		}
+		o.w("C");
 		put_min(o, m, pmin, trace);
 		Minimization fresh(ftols.at(ob));
 		std::vector<double> pmin2 = call.run_values(fresh, g2);
